@@ -113,6 +113,15 @@ class AtModel(object):
         return acts
 
 
+def script_lines(part):
+    """OctoPrint accepts a script prefix / postfix as None, a string or a list of commands."""
+    if not part:
+        return []
+    if isinstance(part, str):
+        return [ln.strip() for ln in part.splitlines() if ln.strip()]
+    return [c for c in part if c is not None]
+
+
 class Item(object):
     """Trace of one program item."""
 
@@ -272,7 +281,7 @@ def run(case, filter_factory=DirectFilter, stop_on_exception=True, observer=None
             try:
                 it.raw = flt.h.script(item[1], item[2])
                 if it.raw is not None:
-                    it.out = list(it.raw[0] or []) + list(it.raw[1] or [])
+                    it.out = script_lines(it.raw[0]) + script_lines(it.raw[1] if len(it.raw) > 1 else None)
             except Exception as exc:  # pylint: disable=broad-except
                 it.exception = "%s: %s" % (type(exc).__name__, exc)
         elif it.kind == "set_at":
